@@ -513,6 +513,8 @@ fn run_all(ctx: &mut Ctx) {
             },
         );
     }
+    // bounded_int_div_rem at the relation boundaries of its verification schemes (exact quotient and remainder)
+    crate::divrem::run_relation(ctx, true);
 }
 
 fn u256v(v: BigInt) -> Expect {
@@ -522,7 +524,7 @@ fn u256v(v: BigInt) -> Expect {
 pub static C06: CheckDef = CheckDef {
     id: "C06",
     level: "exploration",
-    rule: "Operation table generated from the corelib trait surface: for each of u8,u16,u32,u64,u128,i8,i16,i32,i64,i128: + - * / % < <= > >= == != & | ^ ~ neg, overflowing_/wrapping_/checked_/saturating_{add,sub,mul}, wide_mul, div_rem, sqrt, pow(small exponents), into felt252, is_zero, min, max; try_into between every ordered pair of integer types and from felt252; felt252 + - * / neg ==, felt252->u256; u256 + - * / % & | ^ < <= == sqrt wrapping_add overflowing_mul. Each (op,T) is a tiny Cairo function compiled alone and run through Cairo->Sierra->CASM->VM; the model is num-bigint. Operands: ALL 65 536 pairs (256 values for unary) for 8-bit types on the ops marked exhaustive (thorough: all ops; casts exhaustive from 8-bit sources, 16-bit in thorough); the full cross product of boundary sets {MIN,MIN+1,-1,0,1,2,MAX-1,MAX, +-2^k+-1 at k=7,8,15,16,31,32,63,64,127} for wider types; 5^4 limb combinations for u256. Oracle: value equality, and panic/None/overflow flag iff the mathematical result does not fit. distinct_nontrivial = distinct (function, operands).",
+    rule: "Operation table generated from the corelib trait surface: for each of u8,u16,u32,u64,u128,i8,i16,i32,i64,i128: + - * / % < <= > >= == != & | ^ ~ neg, overflowing_/wrapping_/checked_/saturating_{add,sub,mul}, wide_mul, div_rem, sqrt, pow(small exponents), into felt252, is_zero, min, max; try_into between every ordered pair of integer types and from felt252; felt252 + - * / neg ==, felt252->u256; u256 + - * / % & | ^ < <= == sqrt wrapping_add overflowing_mul. Each (op,T) is a tiny Cairo function compiled alone and run through Cairo->Sierra->CASM->VM; the model is num-bigint. Operands: ALL 65 536 pairs (256 values for unary) for 8-bit types on the ops marked exhaustive (thorough: all ops; casts exhaustive from 8-bit sources, 16-bit in thorough); the full cross product of boundary sets {MIN,MIN+1,-1,0,1,2,MAX-1,MAX, +-2^k+-1 at k=7,8,15,16,31,32,63,64,127} for wider types; 5^4 limb combinations for u256. Oracle: value equality, and panic/None/overflow flag iff the mathematical result does not fit. distinct_nontrivial = distinct (function, operands). Plus bounded_int_div_rem over the divrem.rs lattice (16 dividend maxima incl. perfect squares and their neighbours x fixed and derived divisor ranges selecting each of the three verification schemes) on operand pairs derived from the instantiation (divisor and quotient at floor(sqrt(max)) +-1, at each other, T=(P-1)/2^128 +-1, 2^64, 2^128 +-1, range ends; remainders 0, 1, b-1): exact quotient and remainder.",
     assumptions: &["signed division and remainder truncate toward zero (documented Cairo semantics)", "ample gas; default compiler configuration"],
     run: run_all,
     stack_mb: 16,
